@@ -90,26 +90,32 @@ func registrations(c *Ctx, rule string) (wr, rd []registration) {
 					// a registration inside `for _, k := range []Format{K1, K2, …}`: one row per element,
 					// the constructor arguments folded with k bound to the element
 					if kc == nil && isCall {
-						if kid, isId := k.(*ast.Ident); isId {
+						// the key mentions the value variable of an enclosing range over a constant list
+						// (a literal, or an init-only package-level table): k, or k.format
+						var kbase ast.Expr = k
+						if sel, isSel := k.(*ast.SelectorExpr); isSel {
+							kbase = sel.X
+						}
+						if kid, isId := kbase.(*ast.Ident); isId {
 							kobj := pk.TypesInfo.Uses[kid]
 							for _, y := range enclosing(fd.Body, n) {
 								rs, isRange := y.(*ast.RangeStmt)
-								if !isRange || rs.Value == nil || pk.TypesInfo.Defs[rs.Value.(*ast.Ident)] != kobj {
+								if !isRange || rs.Value == nil || kobj == nil || pk.TypesInfo.Defs[rs.Value.(*ast.Ident)] != kobj {
 									continue
 								}
-								cl, isLit := rs.X.(*ast.CompositeLit)
-								if !isLit {
+								ev := &evaluator{p: c.P}
+								list := ev.expr(&frame{pkg: pk, env: map[types.Object]value{}}, rs.X)
+								if list.k != vList {
 									continue
 								}
 								fn, _ := typeutil.Callee(pk.TypesInfo, ce).(*types.Func)
-								for _, el := range cl.Elts {
-									var ec *types.Const
-									switch x := el.(type) {
-									case *ast.SelectorExpr:
-										ec, _ = pk.TypesInfo.Uses[x.Sel].(*types.Const)
-									case *ast.Ident:
-										ec, _ = pk.TypesInfo.Uses[x].(*types.Const)
+								for _, elv := range list.list {
+									fr := &frame{pkg: pk, env: map[types.Object]value{kobj: elv}}
+									kv := ev.expr(fr, k)
+									if kv.k != vConst || !kv.isStr() {
+										continue
 									}
+									ec := formatConstByValue(c, kv.str())
 									if ec == nil {
 										continue
 									}
@@ -117,8 +123,6 @@ func registrations(c *Ctx, rule string) (wr, rd []registration) {
 									if fn != nil {
 										r.ctor = fn.Name()
 									}
-									ev := &evaluator{p: c.P}
-									fr := &frame{pkg: pk, env: map[types.Object]value{kobj: constVal(ec)}}
 									for _, a := range ce.Args {
 										if av := ev.expr(fr, a); av.k == vConst {
 											r.args = append(r.args, av)
@@ -1061,12 +1065,23 @@ func detectionResult(c *Ctx) {
 						if i+1 >= len(chain) {
 							continue
 						}
+						var okVar types.Object // of `o, ok := table[k]` with a table of non-empty formats
 						for _, st := range s.List {
 							if st == chain[i+1] {
 								break
 							}
+							if as, isAs := st.(*ast.AssignStmt); isAs && len(as.Lhs) == 2 && len(as.Rhs) == 1 && objOf(d.pkg, as.Lhs[0]) == o {
+								okVar = nil
+								if ix, isIx := as.Rhs[0].(*ast.IndexExpr); isIx && tableOfNonEmptyFormats(c, d, ix.X, 0) {
+									okVar = objOf(d.pkg, as.Lhs[1])
+								}
+							}
 							if ifs, ok := st.(*ast.IfStmt); ok && ifs.Else == nil && terminates(ifs.Body) {
 								if be, ok := ifs.Cond.(*ast.BinaryExpr); ok && be.Op == token.EQL && isEmptyCmp(ifs.Cond, token.EQL) {
+									guarded = true
+								}
+								// if !ok { return … } after the lookup
+								if u, isNot := ifs.Cond.(*ast.UnaryExpr); isNot && u.Op == token.NOT && okVar != nil && objOf(d.pkg, u.X) == okVar {
 									guarded = true
 								}
 							}
@@ -1081,4 +1096,63 @@ func detectionResult(c *Ctx) {
 	}
 	check("formats.(*Sniffer).SniffReader", 0)
 	c.floor(R, 5, "the returns of SniffReader")
+}
+
+// tableOfNonEmptyFormats: e denotes an init-only package-level map whose values are all non-empty
+// string constants, or a local that is only ever assigned such tables.
+func tableOfNonEmptyFormats(c *Ctx, d *declInfo, e ast.Expr, depth int) bool {
+	id, ok := e.(*ast.Ident)
+	if !ok || depth > 3 {
+		return false
+	}
+	obj := objOf(d.pkg, id)
+	pv, isVar := obj.(*types.Var)
+	if !isVar {
+		return false
+	}
+	if pv.Pkg() != nil && pv.Parent() == pv.Pkg().Scope() {
+		tbl := (&evaluator{p: c.P}).packageTable(pv)
+		if tbl.k != vMap || len(tbl.list) == 0 {
+			return false
+		}
+		for _, v := range tbl.list {
+			if !v.isStr() || v.str() == "" {
+				return false
+			}
+		}
+		return true
+	}
+	// a local: every value it is given
+	n, all := 0, true
+	ast.Inspect(d.fd.Body, func(m ast.Node) bool {
+		as, ok := m.(*ast.AssignStmt)
+		if !ok || len(as.Lhs) != len(as.Rhs) {
+			return true
+		}
+		for i, l := range as.Lhs {
+			if objOf(d.pkg, l) == obj {
+				n++
+				all = all && tableOfNonEmptyFormats(c, d, as.Rhs[i], depth+1)
+			}
+		}
+		return true
+	})
+	return n > 0 && all
+}
+
+// formatConstByValue finds the formats.Format constant with the given value.
+func formatConstByValue(c *Ctx, val string) *types.Const {
+	pk := c.P.pkg("pkg/formats")
+	if pk == nil {
+		return nil
+	}
+	sc := pk.Types.Scope()
+	for _, name := range sc.Names() {
+		if k, ok := sc.Lookup(name).(*types.Const); ok && strings.HasSuffix(k.Type().String(), "formats.Format") {
+			if v := constVal(k); v.isStr() && v.str() == val {
+				return k
+			}
+		}
+	}
+	return nil
 }
